@@ -309,6 +309,9 @@ func (v *VM) exec() {
 			v.stack = v.stack[:len(v.stack)-int(i.A)+1]
 			if i.B == 1 {
 				tmp := vs[len(vs)-1]
+				if tmp.t.base() == TypeString {
+					tmp = tmp.convert(TypeSlice) // append(b, s...) appends the BYTES of s
+				}
 				vs = append(vs[:len(vs)-1], tmp.data()...)
 			}
 			if s.value != nil {
